@@ -79,6 +79,7 @@ class Harness:
         self.file = None
         self.cbmc_args = []
         self.needs_slice = None
+        self.rss_gb = 4   # expected peak resident memory (GB), used for memory-aware scheduling
 
     def as_dict(self):
         return {
@@ -119,6 +120,8 @@ def load_harnesses():
                 cur.timeout = int(v)
             elif k == "mem":
                 cur.mem_gb = int(v)
+            elif k == "rss":
+                cur.rss_gb = int(v)
             elif k == "api":
                 cur.api = v
             elif k == "cost":
@@ -448,14 +451,22 @@ def unit_playback(res, repo_dir):
     watchdog = int(os.environ.get("VERIF_PLAYBACK_WATCHDOG", "90"))
     for k, tname in enumerate(names):
         src = cands[k]
+        pp = subprocess.Popen(base + ["--", tname], cwd=cwd, env=env, text=True, stdout=subprocess.PIPE,
+                              stderr=subprocess.STDOUT, start_new_session=True)
         try:
-            r = subprocess.run(base + ["--", tname], cwd=cwd, env=env, text=True, stdout=subprocess.PIPE,
-                               stderr=subprocess.STDOUT, timeout=watchdog, start_new_session=True)
-            txt, rc = r.stdout, r.returncode
-        except subprocess.TimeoutExpired as e:
-            txt = e.stdout.decode(errors="replace") if isinstance(e.stdout, bytes) else (e.stdout or "")
+            txt, _ = pp.communicate(timeout=watchdog)
+            rc = pp.returncode
+        except subprocess.TimeoutExpired:
+            # a hung native test: kill the whole process group (cargo, test runner, test binary)
+            try:
+                os.killpg(pp.pid, signal.SIGKILL)
+            except ProcessLookupError:
+                pass
+            try:
+                txt, _ = pp.communicate(timeout=10)
+            except Exception:
+                txt = ""
             rc = "timeout"
-            sh("pkill -f playback-target/ || true")
         try:
             open(os.path.join(os.path.dirname(repo_dir), "logs", "%s.native-playback-%d.log" % (res.h.name, k)), "w").write(txt)
         except OSError:
@@ -591,6 +602,12 @@ def main():
         results = []
         lock = threading.Lock()
 
+        # memory-aware scheduling: the expected peak RSS of the harnesses running at
+        # the same time stays below the budget (62 GB machine, no swap)
+        budget = int(os.environ.get("VERIF_MEM_BUDGET_GB", "50"))
+        mem_cv = threading.Condition()
+        in_use = [0]
+
         def worker(k):
             tdir = os.path.join(scratch, "t%d" % k)
             sh(["cp", "-a", cache, tdir])
@@ -599,6 +616,20 @@ def main():
                     h = q.get_nowait()
                 except queue.Empty:
                     return
+                need = min(h.rss_gb, budget)
+                with mem_cv:
+                    while in_use[0] + need > budget:
+                        mem_cv.wait()
+                    in_use[0] += need
+                try:
+                    run_one(h, tdir)
+                finally:
+                    with mem_cv:
+                        in_use[0] -= need
+                        mem_cv.notify_all()
+
+        def run_one(h, tdir):
+            if True:
                 r = run_harness(h, repo_dir, tdir, a.tier, logdir)
                 if r.status == "fail":
                     # second run, instrumented, to obtain concrete witness values
@@ -699,6 +730,9 @@ def write_evidence(prop, tier, seed, results, violations, wall, slice_info=None,
             if s == "SATISFIED":
                 covers.append("%s: %s" % (r.h.name, d))
     enc = sorted({e for r in results for e in r.h.encodes})
+    used_slices = {r.h.needs_slice for r in results if r.h.needs_slice}
+    if "c09_class_parser" in used_slices:
+        used_slices.add("c09_set_algebra")
     ev = {
         "property_id": prop,
         "tier": tier,
@@ -723,8 +757,8 @@ def write_evidence(prop, tier, seed, results, violations, wall, slice_info=None,
             "cbmc_properties_failed": sum(r.n_failed for r in results),
             "solver_time_s": round(sum(r.verif_time for r in results), 1),
             "stubs": STUBS,
-            "standins": (slice_info or {}).get("standins", []),
-            "slices": (slice_info or {}).get("slices", {}),
+            "standins": (slice_info or {}).get("standins", []) if used_slices else [],
+            "slices": {k: v for k, v in (slice_info or {}).get("slices", {}).items() if k in used_slices},
             "inconclusive": [{"harness": r.h.name, "reason": r.reason} for r in inconclusive],
             "known_findings_hit": [k["id"] for k, _ in known_hits],
             "explanation": ("bounded model checking of the compiled Rust code (Kani 0.68 -> CBMC 6.11, CaDiCaL); "
